@@ -221,6 +221,10 @@ def lexer_specs(seed=0):
                      [ID("NUM"), ID("HEX"), ID("NUM2"), ("lit", "x")], "0x1 : `0` then `x1`? longest match decides"))
     S.append(LexSpec("covered_overlap", [[L("ab")], [R("a[a-c]"), R("[a-c]b")]], [("lit", "ab"), ("re", "a[a-c]"), ("re", "[a-c]b")],
                      "two equal-precedence regexes overlap only on a string a higher rung claims"))
+    # --- longest match beyond a non-matching prefix (the scan must go on through non-accepting states)
+    S.append(LexSpec("gap_float", None, [("re", r"[0-9]+(\.[0-9]+)?"), ("lit", "."), ("re", "[a-z]+")], "1.5 is one token, 1.x is three"))
+    S.append(LexSpec("gap_lits", None, [("lit", "a"), ("lit", "abc"), ("lit", "b"), ("lit", "=="), ("lit", "====")], "abc vs a b ; ==== vs == == ; === is == then InvalidToken"))
+    S.append(LexSpec("gap_rep", None, [("re", "(ab)+"), ("lit", "a"), ("re", "c+")], "ababa = abab a"))
     # --- rejected: ambiguity ---
     S.append(LexSpec("amb_two_regex", None, [("re", "[a-z]+"), ("re", "[a-c]x?")], "", "ambiguity"))
     S.append(LexSpec("amb_unicode_class", None, [("re", "[éa]x"), ("re", "éx")], "literal é inside a regex vs a class containing é", "ambiguity"))
@@ -318,4 +322,70 @@ def random_specs(seed, count):
             used.append(("lit", ";"))
             rungs[-1].append(("_",))
         out.append(LexSpec("rnd%d" % i, rungs, used, "seeded random match block"))
+    return out
+
+
+# ------------------------------------------------------------------------------------------------
+# range-refinement family (C11): the lexer DFA splits the character ranges of all terminals of a state into
+# disjoint pieces.  Shapes: two classes nested / staggered / sharing an end, literals whose first characters
+# fall into each piece, pairs of equal-precedence literals that continue identically.  The verdict is z3's.
+# ------------------------------------------------------------------------------------------------
+
+def _pieces(A, B):
+    """letters of A only-left-of-B..., as lists: [A∩B-left-part ...] -> dict piece name -> letters"""
+    a = set(range(ord(A[0]), ord(A[1]) + 1))
+    b = set(range(ord(B[0]), ord(B[1]) + 1))
+    both = sorted(a & b)
+    only_a = sorted(a - b)
+    only_b = sorted(b - a)
+    out = {}
+    if both:
+        out["both"] = [chr(c) for c in both]
+    if only_a:
+        out["only_a"] = [chr(c) for c in only_a]
+    lo_b = [chr(c) for c in only_b if both and c < both[0]]
+    hi_b = [chr(c) for c in only_b if both and c > both[-1]]
+    if lo_b:
+        out["b_low"] = lo_b
+    if hi_b:
+        out["b_high"] = hi_b
+    return out
+
+
+def refine_specs(seed=0, nrandom=30):
+    out = []
+    k = 0
+    shapes = [(("a", "f"), ("a", "z")), (("c", "h"), ("a", "z")), (("a", "m"), ("h", "z")), (("h", "z"), ("a", "m")), (("d", "k"), ("d", "z")), (("p", "z"), ("a", "z"))]
+    for A, B in shapes:
+        pc = _pieces(A, B)
+        for third_piece in pc:
+            for pair_piece in pc:
+                ls = pc[pair_piece]
+                if len(ls) < 2:
+                    continue
+                x, y = ls[len(ls) // 2], ls[-1]
+                t = pc[third_piece][len(pc[third_piece]) // 2]
+                lits = [t + "o", x + "et", y + "et"]
+                if len(set(lits)) < 3:
+                    continue
+                out.append(LexSpec("refine%d" % k, None, [("re", "[%s-%s]+:" % A), ("re", "[%s-%s]+=" % B)] + [("lit", l) for l in lits],
+                                   "classes %s-%s / %s-%s, literal in piece %s, same-tail pair in piece %s" % (A + B + (third_piece, pair_piece))))
+                k += 1
+    # non-ASCII variant: a Latin-1 class against \w (whose ranges end/start inside it), an operator class outside \w
+    out.append(LexSpec("refine_u0", None, [("re", r"\w+"), ("re", "[×÷]"), ("re", r"[à-ÿ]\."), ("lit", "été")], "Latin-1 class vs \\w, × and ÷ are not word characters"))
+    out.append(LexSpec("refine_u1", None, [("re", r"\w+:"), ("re", "[¡-¿]+"), ("re", r"[ª-º]+\."), ("lit", "µ")], "punctuation block with letters ª µ º inside"))
+    rnd = random.Random(7000 + seed)
+    letters = "abcdefghijklmnopqrstuvwxyz"
+    for i in range(nrandom):
+        nre = rnd.randint(2, 3)
+        res = []
+        for j in range(nre):
+            lo = rnd.randrange(0, 24)
+            hi = rnd.randrange(lo, 26)
+            res.append(("re", "[%s-%s]+%s" % (letters[lo], letters[hi], ":=!"[j])))
+        tails = rnd.sample(["et", "o", "a", "et"], 2)
+        lits = set()
+        for _ in range(rnd.randint(2, 4)):
+            lits.add(rnd.choice(letters) + rnd.choice(tails))
+        out.append(LexSpec("refine_r%d" % i, None, res + [("lit", l) for l in sorted(lits)], "seeded random ranges and literals"))
     return out
